@@ -183,6 +183,8 @@ var longDecRe = regexp.MustCompile(`^[+-]?([0-9]*)\.?([0-9]*)(?:[eE]([+-]?[0-9]{
 // bigOracle returns the correctly rounded value of a plain decimal text with
 // more than 700 digits, computed with big.Rat. rng reports overflow.
 func bigOracle(txt string) (val float64, ok, rng bool) {
+	// (strconv decides validity, including the placement of underscores; for the value they are ignored)
+	txt = strings.ReplaceAll(txt, "_", "")
 	m := longDecRe.FindStringSubmatch(txt)
 	if m == nil || len(m[1])+len(m[2]) <= 700 || len(m[1])+len(m[2]) == 0 {
 		return 0, false, false
